@@ -118,6 +118,15 @@ func (g *dgen) lexRange() (string, string) {
 // write returns one valid write command.
 func (g *dgen) write() []string {
 	k := g.key()
+	if g.p(0.04) {
+		// HyperLogLog (its own keys: the writes go through a write-back cache): elements from a small pool, so that
+		// a PFADD often adds nothing new
+		a := []string{"pfadd", dataNS + ":t:pf" + g.pick([]string{"0", "1"})}
+		for i := 1 + g.rng.Intn(3); i > 0; i-- {
+			a = append(a, "e"+strconv.Itoa(g.rng.Intn(6)))
+		}
+		return a
+	}
 	switch g.rng.Intn(5) {
 	case 0: // kv
 		switch g.rng.Intn(20) {
@@ -297,6 +306,9 @@ func (g *dgen) write() []string {
 
 func (g *dgen) read() []string {
 	k := g.key()
+	if g.p(0.03) {
+		return []string{"pfcount", dataNS + ":t:pf" + g.pick([]string{"0", "1"})}
+	}
 	switch g.rng.Intn(5) {
 	case 0:
 		switch g.rng.Intn(9) {
@@ -431,6 +443,9 @@ func (g *dgen) read() []string {
 
 // mutate damages a valid command the way a client could (C11).
 func (g *dgen) mutate(a []string) []string {
+	if len(a) > 0 && strings.HasPrefix(a[0], "pf") {
+		return a // HyperLogLog commands stay on their own keys (their stored bytes are compared through PFCOUNT only)
+	}
 	a = append([]string{}, a...)
 	g.nops++
 	switch g.rng.Intn(16) {
@@ -578,6 +593,9 @@ func (g *dgen) session(tier string, idx int) {
 		if g.p(ps) {
 			sh += k
 		}
+	}
+	if g.p(ps * 2) {
+		sh += "s"
 	}
 	g.pol = pol
 	base := dataBasePast
@@ -767,6 +785,14 @@ func (g *dgen) session(tier string, idx int) {
 		}
 		g.emit(fmt.Sprintf("w %d %d %s", g.ts, b, hexArgs(a)))
 		g.open = b == 0
+		if b == 1 && strings.Contains(sh, "s") && g.p(0.12) {
+			g.emit("restart")
+			if g.p(0.5) {
+				// right after the restart: a PFADD that (most likely) adds nothing new to a HyperLogLog that is only on disk now
+				g.stepClock()
+				g.emit(fmt.Sprintf("w %d 1 %s", g.ts, hexArgs([]string{"pfadd", dataNS + ":t:pf" + g.pick([]string{"0", "1"}), "e" + strconv.Itoa(g.rng.Intn(4))})))
+			}
+		}
 		if b == 1 {
 			g.emit("inv")
 			if pol == "local" && g.p(0.08) {
@@ -836,9 +862,9 @@ func (g *dgen) bigSession(idx int) {
 	k2 := dataNS + ":t:b"
 	w(append([]string{"rpush", k2}, many("e", 0, 3000)...)...)
 	w(append([]string{"rpush", k2}, many("e", 3000, total)...)...)
-	w("ltrim", k, "7", fmt.Sprint(total-8))                      // a few from both ends: the per-element loops
-	w("ltrim", k, "0", fmt.Sprint(1+g.rng.Intn(20)))             // > 5000 from the tail: the range-delete branch
-	w("ltrim", k2, fmt.Sprint(total-1-g.rng.Intn(20)), "-1")     // > 5000 from the head: the range-delete branch
+	w("ltrim", k, "7", fmt.Sprint(total-8))                  // a few from both ends: the per-element loops
+	w("ltrim", k, "0", fmt.Sprint(1+g.rng.Intn(20)))         // > 5000 from the tail: the range-delete branch
+	w("ltrim", k2, fmt.Sprint(total-1-g.rng.Intn(20)), "-1") // > 5000 from the head: the range-delete branch
 	g.emit("r " + hexArgs([]string{"lrange", k2, "0", "-1"}))
 	g.emit("r " + hexArgs([]string{"lrange", k, "0", "-1"}))
 	g.emit("r " + hexArgs([]string{"lindex", k, "-1"}))
